@@ -1018,6 +1018,8 @@ impl<'a> VisitMut for OptPass<'a> {
 // ------------------------------------------------------------------------------------------
 
 struct LoopPass<'a> {
+    /// locals bound to a lazily built iterator that R9 turned into a Vec: a later `NAME.collect()` on them is the identity
+    lazy_vecs: Vec<String>,
     cfg: &'a Config,
     counts: &'a mut Counts,
     chains_seen: u64,
@@ -1611,6 +1613,9 @@ impl<'a> VisitMut for LoopPass<'a> {
                                     Ok(x) => {
                                         init.expr = Box::new(x);
                                         bump(self.counts, "R9.lazy_iter_to_vec");
+                                        if let syn::Pat::Ident(pi) = &l.pat {
+                                            self.lazy_vecs.push(pi.ident.to_string());
+                                        }
                                         return;
                                     }
                                     Err(m) => {
@@ -1627,6 +1632,20 @@ impl<'a> VisitMut for LoopPass<'a> {
         visit_mut::visit_local_mut(self, l);
     }
     fn visit_expr_mut(&mut self, e: &mut syn::Expr) {
+        if let syn::Expr::MethodCall(mc) = e {
+            if mc.method == "collect" && mc.args.is_empty() {
+                if let syn::Expr::Path(rp) = &*mc.receiver {
+                    if let Some(id) = rp.path.get_ident() {
+                        if self.lazy_vecs.iter().any(|n| id == n) {
+                            let r = (*mc.receiver).clone();
+                            *e = r;
+                            bump(self.counts, "R9.collect_of_vec_dropped");
+                            return;
+                        }
+                    }
+                }
+            }
+        }
         if let Some(new) = self.try_chain(e) {
             *e = new;
             return;
@@ -2089,7 +2108,7 @@ pub fn apply_to_fn(
     // loops / closures
     let mut info = FnInfo::default();
     {
-        let mut p = LoopPass { cfg, counts, chains_seen: 0, loops: 0, closures: 0, closure_params: vec![], lifted: vec![], err: None };
+        let mut p = LoopPass { lazy_vecs: vec![], cfg, counts, chains_seen: 0, loops: 0, closures: 0, closure_params: vec![], lifted: vec![], err: None };
         p.visit_block_mut(&mut f.block);
         if let Some(e) = p.err {
             return Err(e);
